@@ -815,6 +815,7 @@ int EGLPNUM_TYPENAME_ILLsimplex (
 	int sdisplay,
 	itcnt_t*itcnt)
 {
+	int nbi;
 	int phase = -1;
 	int singular = -1;
 	int rval = 0;
@@ -929,6 +930,19 @@ int EGLPNUM_TYPENAME_ILLsimplex (
 			rval = EGLPNUM_TYPENAME_ILLbasis_get_cinitial (lp, it.algorithm);
 		CHECKRVALG (rval, CLEANUP);
 		EGLPNUM_TYPENAME_ILLprice_free_pricing_info (pinf);
+	}
+
+	/* the bounds may have changed since the non-basic statuses were set (a
+	 * loaded basis, or the basis of an earlier solve kept across
+	 * QSchange_bound): nothing can sit at a bound that is infinite now */
+	for (nbi = 0; nbi < lp->nnbasic; nbi++)
+	{
+		int col = lp->nbaz[nbi];
+
+		if (lp->vstat[col] == STAT_LOWER && EGLPNUM_TYPENAME_EGlpNumIsEqqual (lp->lz[col], EGLPNUM_TYPENAME_NINFTY))
+			lp->vstat[col] = EGLPNUM_TYPENAME_EGlpNumIsEqqual (lp->uz[col], EGLPNUM_TYPENAME_INFTY) ? STAT_ZERO : STAT_UPPER;
+		else if (lp->vstat[col] == STAT_UPPER && EGLPNUM_TYPENAME_EGlpNumIsEqqual (lp->uz[col], EGLPNUM_TYPENAME_INFTY))
+			lp->vstat[col] = EGLPNUM_TYPENAME_EGlpNumIsEqqual (lp->lz[col], EGLPNUM_TYPENAME_NINFTY) ? STAT_ZERO : STAT_LOWER;
 	}
 
 	if (lp->fbasisid != lp->basisid)
